@@ -69,6 +69,8 @@ class Orc:
         if self.sym:
             if is_sym(x):
                 return x
+            if isinstance(x, Poly):
+                return scalar(x)
             return const_array(x)
         return np.asarray(x, dtype=float)
 
@@ -102,6 +104,8 @@ class Orc:
             return out
         if x.is_const() or (len(x.t) == 1 and x.deg() <= 1):
             return x
+        if x.vars() & set(self.dom.inv_atoms):
+            return x
         key = ("name", x)
         if key in self.dom.cache:
             return self.dom.cache[key]
@@ -120,6 +124,11 @@ class Orc:
             w = np.empty((1, 1), dtype=object)
             w[0, 0] = self.dom.div(Poly.const(1), S[0, 0])
             return w
+        if n <= 3:
+            det = _det(S)
+            idet = self.dom.div(Poly.const(1), det)
+            adj = _adjugate(S)
+            return adj * idet
         W, name = self.dom._fresh_mat(label, (n, n), "inverse")
         E = W.dot(S) - self.eye(n)
         E2 = S.dot(W) - self.eye(n)
@@ -147,6 +156,29 @@ class Orc:
 
     def gram(self, L):
         return L.dot(L.T)
+
+
+def _det(M):
+    n = M.shape[0]
+    if n == 1:
+        return M[0, 0]
+    tot = Poly()
+    for j in range(n):
+        if not M[0, j].t:
+            continue
+        minor = np.delete(np.delete(M, 0, axis=0), j, axis=1)
+        tot = tot + M[0, j] * _det(minor) * (-1) ** j
+    return tot
+
+
+def _adjugate(M):
+    n = M.shape[0]
+    out = np.empty((n, n), dtype=object)
+    for i in range(n):
+        for j in range(n):
+            minor = np.delete(np.delete(M, j, axis=0), i, axis=1)
+            out[i, j] = _det(minor) * (-1) ** (i + j) if n > 1 else Poly.const(1)
+    return out
 
 
 # --------------------------------------------------------------------------- results
@@ -282,6 +314,24 @@ class PCase:
         res["wall_s"] = round(time.time() - t0, 2)
         return res
 
+    def replay(self, path, log=print):
+        """re-run a stored counterexample against the real code (no solver involved)"""
+        with open(path) as f:
+            data = json.load(f)
+        dom = PolyDomain()
+        fn, args = self.make(dom)
+        tr = Traced(fn, args)
+        env = {k: Fraction(v) for k, v in data["inputs"].items()}
+        rep = self.replay_float(tr, args, env)
+        label = data["label"]
+        r = rep[label]
+        log(f"replay {data['obligation']}: real code = {r['impl']}\n   oracle = {r['oracle']}\n   max abs err = {r['max_abs_err']}")
+        if not r["ok"]:
+            log(f"VIOLATION property={self.id.split('/')[0]} replay={path}")
+            return 1
+        log("counterexample does not reproduce on the current tree")
+        return 0
+
     def _args_float(self, args, env):
         import jax
         from .trace import leaves_to_float
@@ -348,6 +398,14 @@ class PCase:
             except Unsupported as ex:
                 res["translator_validation"] = {"ok": None, "note": str(ex)}
         # --- obligations
+        # cheap screen first: the real code vs the oracle in float64 at the seeded point.  A discrepancy
+        # there goes straight to refutation (exact query + replay); agreement decides nothing.
+        try:
+            rep0 = self.replay_float(tr, args, env0)
+        except Exception as ex:   # noqa: BLE001
+            rep0 = None
+            res["notes"].append(f"float screen failed: {ex!r}")
+        deadline = float(os.environ.get("VERIF_DEADLINE", "0")) or None
         for label, (a, b) in pairs.items():
             la, lb = _flat(a), _flat(b)
             assert len(la) == len(lb), (label, len(la), len(lb))
@@ -356,17 +414,22 @@ class PCase:
                   "goal_deg": max((g.deg() for g in goals if isinstance(g, Poly)), default=0),
                   "goal_terms": sum(g.nterms() for g in goals)}
             tt = time.time()
-            pr = None
-            for extra in range(self.extra_deg, self.extra_deg + self.deepen + 1):
-                pr = xl.prove(dom.hyps, goals, alg_atoms=dom.alg_atoms, extra_deg=extra,
-                              budget_s=self.budget_s, max_rows=self.max_rows,
-                              log=(log if os.environ.get("VERIF_VERBOSE") else None))
-                if pr.status in ("proved", "trivial"):
-                    break
-                # cheap numeric screen before deepening: is the goal false at a pinned point?
-                rep = self.replay_float(tr, args, env0)
-                if not rep[label]["ok"]:
-                    break
+            pr = xl.Result()
+            pr.status = "not_proved"
+            screened_bad = rep0 is not None and label in rep0 and not rep0[label]["ok"]
+            if not screened_bad:
+                for extra in range(self.extra_deg, self.extra_deg + self.deepen + 1):
+                    budget = self.budget_s
+                    if deadline:
+                        budget = max(5.0, min(budget, deadline - time.time() - 20.0))
+                    pr = xl.prove(dom.hyps, goals, alg_atoms=dom.alg_atoms, sq_atoms=dom.sq_atoms,
+                                  inv_atoms=dom.inv_atoms, defined=dom.defined, extra_deg=extra,
+                                  budget_s=budget, max_rows=self.max_rows,
+                                  log=(log if os.environ.get("VERIF_VERBOSE") else None))
+                    if pr.status in ("proved", "trivial"):
+                        break
+                    if deadline and deadline - time.time() < 40.0:
+                        break
             ob["prover"] = pr.as_dict()
             ob["prover"].pop("goal_status", None)
             ob["status"] = pr.status
